@@ -138,7 +138,8 @@ def gen(rng, tier):
                     'val': 'h%d' % uid[0],
                     'scope': rng.choice(['', 'sa'])})
     hooks.append(items)
-  return {'specs': specs, 'ops': ops, 'hooks': hooks}
+  return {'specs': specs, 'ops': ops, 'hooks': hooks,
+          'shadow': rng.choice([None, None, 'function', 'two_classes'])}
 
 
 K_SRC = '''
@@ -409,6 +410,66 @@ def run(case):
     elif k == 'observe':
       log.add('observe', probes.stable({kk: {p: x[0] for p, x in d.items()}
                                         for kk, d in (snapshot().get('store') or {}).items()}))
+
+  # ---- names freed by a method's move under its class are taken again -----------
+  if case.get('shadow'):
+    def call_method(conf_cls, label):
+      received.clear()
+      try:
+        conf_cls().meth()
+      except Exception as e:  # pylint: disable=broad-except
+        return 'EXC %s: %s' % (type(e).__name__, probes.scrub(str(e))[:200])
+      return received.get(label, ({},))[0].get('ma')
+    try:
+      gin.bind_parameter('mm.K.meth.ma', 'for-K-meth')
+      # (1) a plain function called like the method, in the module the method
+      # was first registered in (K.meth was 'ginsim_probes.meth' before K took
+      # it over)
+      g3 = {'_hook': hook, '__name__': 'ginsim_probes'}
+      if case['shadow'] == 'function':
+        exec('def meth(fa=0):\n'  # pylint: disable=exec-used
+             "  return _hook('shadow_fn', {'fa': fa}, (), {}, None)\n", g3)
+        shadow = gin.configurable(g3['meth'])
+        gin.bind_parameter('ginsim_probes.meth.fa', 'for-function')
+        received.clear()
+        try:
+          shadow()
+          got = received.get('shadow_fn', ({},))[0].get('fa')
+        except Exception as e:  # pylint: disable=broad-except
+          got = 'EXC %s: %s' % (type(e).__name__, probes.scrub(str(e))[:200])
+        if got != 'for-function':
+          v('C11.never_injected', ['function-named-like-a-method'],
+            'function ginsim_probes.meth (registered after the method K.meth '
+            'had moved from that name to mm.K.meth) bound fa=for-function: a '
+            'call gives %r' % (got,))
+      got = call_method(KC, 'K.meth')
+      if got != 'for-K-meth':
+        v('C11.accepted_visible', ['method-after-name-reuse'],
+          'K.meth bound ma=for-K-meth receives %r after a function took the '
+          'name the method was first registered under' % (got,))
+      # (2) a second class with a registered method of the same name
+      if case['shadow'] == 'two_classes':
+        exec(compile(K_SRC.replace('class K:', 'class K2:').replace(
+            "'K.meth'", "'K2.meth'").replace("'K.meth2'", "'K2.meth2'"),
+                     '<K2>', 'exec'), g3)
+        K2 = g3['K2']
+        K2.__module__ = 'ginsim_probes'
+        K2.meth = gin.register(K2.meth)
+        gin.register(module='mm')(K2)
+        K2C = gin.get_configurable(K2)
+        gin.bind_parameter('mm.K2.meth.ma', 'for-K2-meth')
+        got2 = call_method(K2C, 'K2.meth')
+        got1 = call_method(KC, 'K.meth')
+        if got2 != 'for-K2-meth' or got1 != 'for-K-meth':
+          v('C11.accepted_visible', ['same-named-methods-of-two-classes'],
+            'K.meth.ma=for-K-meth, K2.meth.ma=for-K2-meth: K().meth() receives '
+            '%r, K2().meth() receives %r' % (got1, got2))
+      log.add('shadow', case['shadow'])
+    except Exception as e:  # pylint: disable=broad-except
+      if not gin.config_is_locked():
+        v('C11.valid_accepted', ['shadow', type(e).__name__],
+          'name re-use scenario raised %s: %s' %
+          (type(e).__name__, probes.scrub(str(e))[:300]))
 
   # ---- hooks -> finalize (last operation) ------------------------------------
   if case['hooks']:
